@@ -145,8 +145,22 @@ def param_pattern_cases():
         ("map_!", "konst::array::map_!(arr, |x| x + 1)", [x + 1 for x in el], False),
         ("map_!", "konst::array::map_!(arr, |mut x| { x += 1; x })", [x + 1 for x in el], False),
         ("map_!", "konst::array::map_!(arr, |ref mut x| { *x += 1; *x })", [x + 1 for x in el], True),
+        # other spellings of the closure argument: typed parameter, explicit return type, function path
+        ("from_fn!", "konst::array::from_fn!(|i: usize| i * 2)", [2 * i for i in idx], False),
+        ("from_fn!", "konst::array::from_fn!(|i| -> usize { i * 2 })", [2 * i for i in idx], False),
+        ("from_fn!", "konst::array::from_fn!(dbl)", [2 * i for i in idx], False),
+        ("from_fn_!", "konst::array::from_fn_!(|i: usize| i * 2)", [2 * i for i in idx], False),
+        ("from_fn_!", "konst::array::from_fn_!(|i| -> usize { i * 2 })", [2 * i for i in idx], False),
+        ("from_fn_!", "konst::array::from_fn_!(dbl)", [2 * i for i in idx], False),
+        ("map!", "konst::array::map!(arr, |x: usize| x + 1)", [x + 1 for x in el], False),
+        ("map!", "konst::array::map!(arr, |x| -> usize { x + 1 })", [x + 1 for x in el], False),
+        ("map!", "konst::array::map!(arr, inc)", [x + 1 for x in el], False),
+        ("map_!", "konst::array::map_!(arr, |x: usize| x + 1)", [x + 1 for x in el], False),
+        ("map_!", "konst::array::map_!(arr, |x| -> usize { x + 1 })", [x + 1 for x in el], False),
+        ("map_!", "konst::array::map_!(arr, inc)", [x + 1 for x in el], False),
     ]
     for mac, call, exp, may_reject in table:
-        body = "let arr: [usize; %d] = %s; let _ = &arr; let out: [usize; %d] = %s; format!(\"{:?}\", out)" % (n, arr, n, call)
+        body = ("const fn dbl(i: usize) -> usize { i * 2 } const fn inc(x: usize) -> usize { x + 1 } "
+                "let arr: [usize; %d] = %s; let _ = &arr; let out: [usize; %d] = %s; format!(\"{:?}\", out)" % (n, arr, n, call))
         out.append((body, str(exp), {"m": "ArrayBuild", "mac": "array::%s (parameter pattern)" % mac, "call": call}, may_reject))
     return out
